@@ -71,6 +71,11 @@ def part_specs(t, r):
         out.append(short)
     if t["$p"] == "mol":
         out.append({k: v for k, v in long.items() if k != "type"})     # default part type
+    # the generic `condition` long form may carry the key / index condition of a map / list part
+    f = {"map": "key", "list": "index"}.get(t["$p"])
+    if f and f in long and "condition" not in long:
+        alt = {("condition" if k == f else k): v for k, v in long.items()}
+        out.append(alt)
     return out
 
 
